@@ -421,6 +421,20 @@ func (p *Parser) parseConstraintColumnList() ([]string, error) {
 func (p *Parser) parseSelectStatement() (ast.Statement, error) {
 	// We've already consumed the SELECT token in matchType
 
+	// Check recursion depth: derived tables (FROM (SELECT ... FROM (SELECT ...))) nest
+	// SELECT statements without passing through parseExpression.
+	p.depth++
+	defer func() { p.depth-- }()
+
+	if p.depth > MaxRecursionDepth {
+		return nil, goerrors.RecursionDepthLimitError(
+			p.depth,
+			MaxRecursionDepth,
+			models.Location{Line: 0, Column: 0},
+			"",
+		)
+	}
+
 	// Check for DISTINCT or ALL keyword
 	isDistinct := false
 	var distinctOnColumns []ast.Expression
